@@ -18,7 +18,7 @@ def _type_is_branches(fn, var):
   """Class names K of every `type(<var>) is K` test in a function."""
   out = []
   for n in astu.body_walk(fn):
-    if isinstance(n, ast.Compare) and len(n.ops) == 1 and isinstance(n.ops[0], ast.Is) and astu.src(n.left) == 'type(%s)' % var:
+    if isinstance(n, ast.Compare) and len(n.ops) == 1 and isinstance(n.ops[0], (ast.Is, ast.IsNot, ast.Eq, ast.NotEq)) and astu.src(n.left) == 'type(%s)' % var:
       out.append(astu.src(n.comparators[0]))
   return out
 
@@ -92,8 +92,10 @@ def r2(R, repo):
   tv = [n for n in c.nodes if n.kind == 'if' and astu.src(n.ast) == 'is_variable']
   ta = [n for n in c.nodes if n.kind == 'if' and 'jax.Array' in astu.src(n.ast) and 'isinstance(value' in astu.src(n.ast)]
   R.require(len(tv) >= 1 and len(ta) == 1, '_graph_flatten: variable / array tests not found')
-  var_leaf = [n for n in la if any(c.edge_guarded(n, t, 'T') for t in tv)]
-  arr_leaf = [n for n in la if c.edge_guarded(n, ta[0], 'T')]
+  is_var = lambda e: isinstance(e, ast.Name) and e.id == 'is_variable'
+  is_arr = lambda e: e is ta[0].ast or (isinstance(e, ast.Call) and astu.call_name(e) == 'isinstance' and 'jax.Array' in astu.src(e) and astu.src(e.args[0]) == 'value')
+  var_leaf = [n for n in la if evid.guarded(c, n, is_var) == 'yes']
+  arr_leaf = [n for n in la if evid.guarded(c, n, is_arr) == 'yes']
   R.check(len(var_leaf) == 1 and len(arr_leaf) == 1, key_of(fl, 'one leaf per Variable, one per array attribute'), fl, 'exactly Variables and array attributes must contribute one leaf each', evidence=True)
   # paths appended iff leaves are, under `path is not None` / `paths is not None`
   for leafn in la:
@@ -131,27 +133,37 @@ def r3(R, repo):
   mod = repo.mod(GR)
   fl = mod.func('_graph_flatten')
   c = cfg_of(fl)
-  look = [n for n in c.nodes if n.kind == 'if' and 'node in ref_index' in astu.src(n.ast)]
+  in_ref = lambda e: isinstance(e, ast.Compare) and len(e.ops) == 1 and isinstance(e.ops[0], ast.In) and astu.src(e.left) == 'node' and astu.src(e.comparators[0]) == 'ref_index'
+  look = [n for n in c.nodes if n.kind == 'if' and evid.mentions(n.ast, in_ref)]
   reg = [n for n in c.nodes if isinstance(n.stmt, ast.Assign) and astu.src(n.stmt.targets[0]) == 'ref_index[node]']
   loop = [n for n in c.nodes if n.kind == 'for' and astu.src(n.ast) == 'values']
   R.require(len(look) == 1 and len(reg) == 1 and len(loop) == 1, '_graph_flatten: ref_index lookup / registration / child loop not found')
-  rets = [n for n in c.nodes if isinstance(n.stmt, ast.Return) and 'NodeRef(' in astu.src(n.stmt) and c.edge_guarded(n, look[0], 'T')]
-  ok = len(rets) == 1 and c.dominated(reg[0], look) and c.dominated(loop[0], reg + [t for t in c.nodes if t.kind == 'if' and astu.src(t.ast) == 'is_graph_node_ or is_variable'])
-  R.check(ok, key_of(fl, 'lookup -> NodeRef, then register, then recurse'), fl, evidence=True, msg_fail= '_graph_flatten must return a NodeRef for an already indexed object, and index a new object before recursing into its children')
-  # kinds: lookup guard must hold for every kind that gets registered
-  regt = [t for t in c.nodes if t.kind == 'if' and c.edge_guarded(reg[0], t, 'T')]
-  R.require(len(regt) >= 1, '_graph_flatten: registration guard not found')
-  lt = look[0].ast
-  guard = lt.values[0] if isinstance(lt, ast.BoolOp) and isinstance(lt.op, ast.And) and len(lt.values) == 2 and 'ref_index' in astu.src(lt.values[1]) else None
-  R.require(guard is not None, '_graph_flatten: lookup test is not `<kind guard> and node in ref_index`')
+  rets = [n for n in c.nodes if isinstance(n.stmt, ast.Return) and 'NodeRef(' in astu.src(n.stmt) and evid.guarded(c, n, in_ref) == 'yes']
   kinds = {'graph node (Module)': dict(is_pytree_node_=False, is_graph_node_=True, is_variable=False),
            'pytree node (list/dict)': dict(is_pytree_node_=True, is_graph_node_=False, is_variable=False),
            'Variable': dict(is_pytree_node_=False, is_graph_node_=False, is_variable=True)}
+  # a kind that is registered is registered before the recursion into its children
+  wit = None
   for kname, env in kinds.items():
-    registered = _bool_eval(regt[-1].ast, env)
-    looked = _bool_eval(guard, env)
-    R.check((not registered) or looked, key_of(fl, 'a shared %s is found again' % kname), (fl, look[0].stmt), evidence=True, msg_fail=
-            'a %s is entered into ref_index (`%s`) but the lookup `%s` skips it: a %s reachable by two paths is flattened twice instead of once plus a NodeRef (sharing is lost)' % (kname, astu.src(regt[-1].ast), astu.src(lt), kname))
+    if reg[0] in evid.reach_env(c, env)[0]:
+      wit = wit or evid.bypass_under(c, env, loop[0], reg)
+  R.check(len(rets) >= 1 and c.dominated(reg[0], look) and wit is None, key_of(fl, 'lookup -> NodeRef, then register, then recurse'), fl, evidence=True, msg_fail=
+          '_graph_flatten must return a NodeRef for an already indexed object, and index a new object before recursing into its children%s' % ((' (path around the registration: %s)' % wit) if wit else ''))
+  # kinds: every kind that gets registered must be looked up first (sharing)
+  for kname, env in kinds.items():
+    may_r, must_r = evid.reach_env(c, dict(env, **{'node in ref_index': False}))
+    registered = reg[0] in must_r
+    maybe_registered = reg[0] in may_r
+    may_l, must_l = evid.reach_env(c, dict(env, **{'node in ref_index': True}))
+    looked = any(r_ in must_l for r_ in rets)
+    maybe_looked = any(r_ in may_l for r_ in rets)
+    key = key_of(fl, 'a shared %s is found again' % kname)
+    if registered and not maybe_looked:
+      R.fail(key, (fl, look[0].stmt), 'a %s is entered into ref_index but the lookup `%s` skips it: a %s reachable by two paths is flattened twice instead of once plus a NodeRef (sharing is lost)' % (kname, astu.src(look[0].ast), kname))
+    elif (not maybe_registered) or looked:
+      R.ok(key, (fl, look[0].stmt))
+    else:
+      R.unsure(key, (fl, look[0].stmt), 'cannot decide whether a %s is registered / looked up' % kname)
   un = mod.func('_graph_unflatten')
   cu = cfg_of(un)
   reg = [n for n in cu.nodes if isinstance(n.stmt, ast.Assign) and astu.src(n.stmt) == 'index_ref[nodedef.index] = node']
